@@ -108,12 +108,12 @@ def construction(n: int, twin: bool = False, real: bool = False):
             out += _leaves(c)
         return out
 
-    def check_construction(a0: int, a1: int, a2: int, a3: int, a4: int, a5: int, a6: int, i: int) -> bool:
+    def check_construction(a0: int, a1: int, a2: int, a3: int, a4: int, a5: int, a6: int, i: int, j: int = 0) -> bool:
         """
         post: _
         """
         av = [a0, a1, a2, a3, a4, a5, a6][:n]
-        if not _in_range(av) or not (0 <= i < n):
+        if not _in_range(av) or not (0 <= i < n) or not (0 <= j < n):
             return True
         for u in [a0, a1, a2, a3, a4, a5, a6][n:]:
             if u != 0:
@@ -136,12 +136,29 @@ def construction(n: int, twin: bool = False, real: bool = False):
                 found = True
         if not found:
             return False
-        # the header commitment is computed over the transactions' ids, in order
+        # a second proof taken from the SAME tree (any other position) is as good as the first
+        proof2 = mt.get_proof(tree, j)
+        if proof2.hash() != root or tree.hash() != root:
+            return False
+        found2 = False
+        for lf in _leaves(proof2):
+            if lf.index == j and lf.value == a[j] and not lf.children:
+                found2 = True
+        if not found2:
+            return False
+        # the header commitment is computed over the transactions' ids, in order - also when another list with the
+        # same first entry and the same length was committed to just before
         txs = [Transaction([], [], cached_hash=x) for x in a]
+        if n >= 2:
+            other = [txs[0]] + [Transaction([], [], cached_hash=bytes([0xEF, k])) for k in range(1, n)]
+            r_other = calc_merkle_root_hash(other)
+            if r_other != _ref_root(H, [t.hash() for t in other]):
+                return False
         return calc_merkle_root_hash(txs) == root
 
     w = {("a%d" % j): (j + 1 if j < n else 0) for j in range(7)}
     w["i"] = n - 1
+    w["j"] = 0
     return check_construction, w
 
 
